@@ -258,7 +258,7 @@ fn seq_run_index(id: &str, tier: &str, seed: u64, idx: u64, stats: &mut Stats, k
     let env = make_env(&gen.names, &mut rng);
     let mut len = run_len(&mut rng, pc.profile.max_len);
     // scale runs: one run in 1024 starts far beyond the sizes ordinary histories reach
-    if idx % 1024 == 33 && matches!(id, "C01" | "C03" | "C06" | "C08" | "C09" | "C11" | "C12" | "C13") {
+    if idx % 1024 == 33 && matches!(id, "C01" | "C03" | "C06" | "C08" | "C09" | "C11" | "C12" | "C13" | "C20") {
         len += gen.scale_prefix(&mut rng);
         stats.bump("scale_runs");
     }
